@@ -26,6 +26,14 @@ type GenWorld interface {
 	Bucket() *rosmar.Bucket
 }
 
+// PostChecker is implemented by worlds whose checks have side effects on the implementation (a
+// non-stale view query updates the index): the state's identity (Canon) is taken after the
+// operation and BEFORE PostCheck, and PostCheck is not run while a path is being replayed, so that
+// queries sit only where the path puts them ("all placements of view queries inside the history").
+type PostChecker interface {
+	PostCheck(op string) []Violation
+}
+
 var genWorlds = map[string]func(cfg Config) GenWorld{}
 
 func RegisterWorld(kind string, f func(cfg Config) GenWorld) { genWorlds[kind] = f }
@@ -112,6 +120,9 @@ func ExpandGen(job GenJob) GenJobResult {
 			vrt.Quiesce()
 			tr.Result, tr.Violations = res, viols
 			tr.Succ = w.Canon()
+			if pc, ok := w.(PostChecker); ok {
+				tr.Violations = append(tr.Violations, pc.PostCheck(tr.Op)...)
+			}
 			w.Close()
 		})
 		first = false
